@@ -153,6 +153,16 @@ func handleSubStr(params internal.HandlerFuncParams) ([]byte, error) {
 	if end > len(value) {
 		end = len(value)
 	}
+	// Clamp indices that still fall outside the string.
+	if start < 0 {
+		start = 0
+	}
+	if start > len(value) {
+		start = len(value)
+	}
+	if end < 0 {
+		end = 0
+	}
 
 	if start > end {
 		reversed = true
